@@ -243,9 +243,14 @@ def _(v):
     f = lay(r.randint(0, 5, size=(n, 1)).astype(float), v["layout"])
 
     mk = lambda: field_from_graph_and_data(wgraph_from_3d_grid(xyz, 18), f)
+    # dilation / erosion / opening / closing / diffusion are documented to change the field's own
+    # data in place ("self.field is changed inplace"), and Field keeps the array it is given:
+    # those run on a Field built from a copy
+    mkc = lambda: field_from_graph_and_data(wgraph_from_3d_grid(xyz, 18), f.copy())
     ops = [lambda: mk().local_maxima(), lambda: mk().custom_watershed(), lambda: mk().threshold_bifurcations(),
-           lambda: mk().dilation(1), lambda: mk().erosion(1), lambda: mk().opening(1), lambda: mk().closing(1),
-           lambda: mk().ward(2), lambda: mk().diffusion(2), lambda: mk().highest_neighbor()]
+           lambda: mkc().dilation(1), lambda: mkc().erosion(1), lambda: mkc().opening(1), lambda: mkc().closing(1),
+           lambda: mk().ward(2), lambda: mkc().diffusion(2), lambda: mk().highest_neighbor(),
+           lambda: mk().copy().dilation(1), lambda: mk().subfield(np.arange(n) % 2 == 0)]
     return call(ops, xyz=xyz, f=f)
 
 
